@@ -80,7 +80,8 @@ add("F10", ["C13"], "C13.trivia|loss|compiler::parser::preparser::preparse|clear
 add("F8", ["C04"], 'C04.belief|site|compiler::typing::InferContext::infer_type|unimplemented|unimplemented!("Assignment to array is not implemented yet.")', "`a[0] = 3.0`: unimplemented! inside the type checker (a syntactically valid text crashes the front end)")
 
 # ---- C05 -------------------------------------------------------------------------------------------------
-add("F17", ["C05", "C07"], "C05.order|concat|compiler::mirgen::Context::eval_expr|Feed|call+cell", "`self` cell: GetState is emitted before the body is evaluated (offset 0 of the function's state) but its skeleton is appended after the body's cells: published layout [Mem, Feed] vs executed getstate@0; mem@1 (fn dsp(){ let y = mem(1.0); self + y })")
+for _p in ("C05", "C07"):
+    fixed("F17", _p, "ab44fac", "C05.order|concat|compiler::mirgen::Context::eval_expr|Feed|call+cell", "`self` cell: GetState reads offset 0 of the function's state but its skeleton was appended after the body's cells (published [Mem, Feed], executed self@0 mem@1): on hot swap of `fn dsp(){ let y = mem(1.0); self + y }` after appending a delay, y lost its state (4,5,6 instead of 5,6,7; findings/repro/F17_self_cell_order/)")
 fixed("F18", "C05", "f97a34c", "C05.accounting|push|compiler::mirgen::Context::eval_expr|x2", "`if` branches: the padding PushStateOffset was not accounted in push_sum (stateful calls of different sizes in the two branches underflowed the VM state cursor); the padding is gone, each branch pops what it pushed")
 fixed("F18", "C05", "6ca1bc7", "C05.accounting|push|compiler::mirgen::Context::eval_union_match|x2", "`match` arms: same unaccounted padding (findings/repro/F18_match_branches.mmm panicked the VM in pop_pos while WASM ran); the padding is gone, each arm pops what it pushed")
 
